@@ -41,8 +41,8 @@ TEXTS["C06"] = {
     "text": "Proved on the model of setTimeoutList/getTimeoutList/setTimeoutRollback for all ledgers, heights, ids: an accepted plain request with 0<T (no overflow) is recorded for exactly H+T "
             "(C06_request_recorded_at_deadline), T<=0/overflow/rejected/batch/begin-failed requests are never recorded (C06_zero_never, C06_rejected_never), an accepted receipt requests removal "
             "at the recorded height (C06_receipt_removes), the timeout step of block h moves every listed id to BEGIN_ROLLBACK and touches no unlisted id "
-            "(C06_fires_at_deadline, C06_not_listed_untouched). The end-to-end statement over histories is checked by model correspondence and the protocol monitor; "
-            "known finding: receipts from an unordered source service are not removed.",
+            "(C06_fires_at_deadline, C06_not_listed_untouched). The end-to-end statement over histories is checked by model correspondence and the protocol monitor, one-to-one and (a quarter of the traffic) one-to-many: a group is listed as timed out only "
+            "in its deadline block and only if it has neither failed nor finished. Three defects repaired by fix: commits (097cb155, 1d4711ef and the timeout-list quirks).",
     "note": TB,
     "technique": "Lean 4 theorems over the executable timeout-bookkeeping model + differential correspondence + protocol monitor",
 }
@@ -82,11 +82,13 @@ TEXTS["C10"] = {
 }
 TEXTS["C18"] = {
     "text": "Proved on the model of generateBlock for every pool state: a batch never exceeds the configured size whenever the ready counter is positive (C18_batch_size_bound, by a loop invariant over the "
-            "priority-index iteration incl. the skipped-transaction drain loop). Gap-freeness, once-only, given-only and consecutive heights are decided by the model correspondence on the real mempoolImpl "
+            "priority-index iteration incl. the skipped-transaction drain loop); the pointers of one batch are pairwise distinct, none was already batched and uncommitted, and each carries the account's committed nonce or the "
+            "successor of a batched nonce — for every pool state, also with two priority entries for one pointer (C18_generate_gap_free_no_repeat, invariant BInv in Proofs/PoolBatch.lean; C18_batch_is_pointer_image, C18_batched_grows_by_batch). "
+            "Across commits, evictions and restarts gap-freeness, once-only, given-only and consecutive heights are decided by the model correspondence on the real mempoolImpl "
             "(all observable outputs and the sizes of every internal index after every step) plus a model-free checker of the batch stream. Known finding: after commits of blocks the node never held the cached "
             "commit nonce is stale and an old transaction is batched below the committed nonce.",
     "note": TB + " time.Now() inside the pool is handled by logical arrival groups (harness sleeps between groups and derives the eviction duration from its own clock).",
-    "technique": "Lean 4 loop-invariant theorem over the executable pool model + differential correspondence + batch-stream checker",
+    "technique": "Lean 4 loop-invariant theorems over the executable pool model (size bound; gap-free / no repeat) + differential correspondence + batch-stream checker",
 }
 TEXTS["C19"] = {
     "text": "Proved on the model: the age rule evicts only transactions that are held, old, not batched, not ready and parked (C19_evict_only_old_nonready_nonbatched, C19_evict_count), GetTransaction returns the "
@@ -159,7 +161,7 @@ TEXTS["C03"] = {
             "recovers to a registered validator not counted before (C03_multisign_ok_iff, C03_bad_signature_never_counts, C03_validator_counted_once, C03_count_le_validators, C03_no_signature_rejected); the model is run against "
             "the real function with real secp256k1 signatures (exhaustive small + random). On the real node a monitor brackets every unverified IBTP with state dumps and offers the same IBTPs to HandleIBTPData by direct calls. "
             "One defect repaired (fix: a rule answering plain false crashed the executor).",
-    "note": TB + " PARTIAL: the rule engine's answer is a parameter (HappyRule / SimFabric rule of the harness world; plain false injected at the proof.Verify boundary); rule change / logout histories through governance and real wasm rules are not exercised; "
+    "note": TB + " PARTIAL: the rule engine's answer is a parameter (HappyRule / SimFabric rule of the harness world; plain false injected at the proof.Verify boundary); rule changes go through real governance (UpdateMasterRule proposed, approved / rejected, the monitor follows GetMasterRule); real wasm rules are not exercised; "
             "HandleIBTPData is refused today only because the registry's contract instance has a nil service cache (observed, not proved).",
     "technique": "Lean 4 theorems (verdict characterisation, no-effect via journal faithfulness, threshold loop invariant) + differential correspondence (executor; verifyMultiSign with real signatures) + state-dump monitor",
 }
